@@ -144,7 +144,7 @@ def coerce(ex, v, sort, st):
             return VOpt(v.isnone, coerce(ex, v.val, sort.inner, st))
         return VOpt(z3.BoolVal(False), coerce(ex, v, sort.inner, st))
     if isinstance(sort, S.BDictSort) and isinstance(v, VTBDict) and z3.is_false(z3.simplify(v.has)):
-        return VBDict(z3.Empty(S.SeqBallot if sort.kelem == "ballot" else S.SeqSeqStr), z3.Empty(z3.SeqSort(z3.RealSort())), sort.kelem)  # `{}`
+        return VBDict(z3.Empty(sort.keyseq()), z3.Empty(z3.SeqSort(z3.RealSort())), sort.kelem)  # `{}`
     if isinstance(sort, S.Dict) and isinstance(v, VTBDict) and z3.is_false(z3.simplify(v.has)):
         return VDict(S.EMPTY_SET, z3.K(S.PyStr, z3.RealVal(0)), sort.val)  # `{}` of a str->number dict
     if isinstance(v, VOpt) and not isinstance(sort, S.Opt):
@@ -297,6 +297,8 @@ def flat_sorts(s):
         return [z3.BoolSort()] + flat_sorts(s.inner)
     if isinstance(s, S.LDictSort):
         return [S.CSetS, S.LMapS]
+    if isinstance(s, S.BDictSort):
+        return [s.keyseq(), z3.SeqSort(z3.RealSort())]
     if isinstance(s, S.Dict):
         return [S.CSetS, S.RMapS]
     if isinstance(s, S.TBDict):
@@ -323,6 +325,8 @@ def flatten(ex, v, s):
         return [v.isnone] + [z3.If(v.isnone, d, t) if not z3.is_true(v.isnone) else d for t, d in zip(inner, dflt)] \
             if not z3.is_false(z3.simplify(v.isnone)) else [v.isnone] + inner
     if isinstance(s, S.LDictSort):
+        return [v.keys, v.vals]
+    if isinstance(s, S.BDictSort):
         return [v.keys, v.vals]
     if isinstance(s, S.Dict):
         if isinstance(v, VOpt):
@@ -386,6 +390,8 @@ def call_method(ex, base, attr, node, st):
     if isinstance(base, VLDict):
         if attr == "keys" and not args:
             return VSet(base.keys)
+    if isinstance(base, VBDict) and attr == "keys" and not args:
+        return base  # `k in d.keys()` is `k in d`
     if isinstance(base, VDict):
         if attr == "keys" and not args:
             return VSet(base.keys)
